@@ -247,11 +247,13 @@ PRIMITIVES = ("peek", "advance", "expect", "expect_keyword", "skip")
 
 
 class Extractor:
-    def __init__(self, parser_cls, alphabet, flags, pre=None):
+    def __init__(self, parser_cls, alphabet, flags, pre=None, mapped=None):
         """flags: dict(allow_type_system=bool, experimental_fragment_variables=bool); pre: method name -> set of token class names the
         next token is required to belong to when the method is called (caller-established precondition, checked at every call site)"""
         self.cls, self.A, self.flags = parser_cls, alphabet, flags
         self.pre = {k: frozenset().union(*[alphabet.of_class(c) for c in v]) for k, v in (pre or {}).items()}
+        self.mapped = None if mapped is None else frozenset(mapped)    # parse_* methods that stand for a nonterminal; the others are helpers, inlined
+        self.inlining = ()
         self.glob = vars(inspect.getmodule(parser_cls))
         self._src = {}
         self.tid = 0
@@ -886,10 +888,22 @@ class Extractor:
                     self.aut.raises.append({"node": n2, "ctor": "UnexpectedToken", "pos": "next_token.start", "token_atoms": s2.toks[tid], "token_is_lookahead": 1,
                                             "consumed": s2.consumed, "line": line, "la1": s2.toks[tid], "by": "expect_keyword(%r)" % args[0].value})
             return out
-        if name in COMBINATORS:
-            # the combinator's real body is executed with the actual arguments (a local scope of its own)
+        helper = name.startswith("parse_") and self.mapped is not None and name not in self.mapped and name in self.cls.__dict__
+        if name in COMBINATORS or helper:
+            # the combinator's real body is executed with the actual arguments (a local scope of its own); so is the body of a parse_* method
+            # that stands for no nonterminal of the specification (a helper factored out of several methods)
             tree = self.method_ast(name)
             params = [a.arg for a in tree.args.args][1:]
+            if helper:
+                if name in self.inlining:
+                    raise Unsupported("recursive helper %s" % name)
+                defaults = tree.args.defaults
+                args = list(args)
+                for i in range(len(args), len(params)):
+                    d = defaults[i - (len(params) - len(defaults))] if i >= len(params) - len(defaults) else None
+                    if not isinstance(d, ast.Constant):
+                        raise Unsupported("parameter %s of helper %s has no value" % (params[i], name))
+                    args.append(ConstV(d.value))
             if len(args) != len(params):
                 raise Unsupported("arity of %s" % name)
             saved = st.env
@@ -897,7 +911,12 @@ class Extractor:
             inner.env = dict(zip(params, args))
             results = []
             sub = _Sub(self, results)
-            sub.run_inline(tree, inner, node)
+            saved_inl = self.inlining
+            self.inlining = saved_inl + ((name,) if helper else ())
+            try:
+                sub.run_inline(tree, inner, node)
+            finally:
+                self.inlining = saved_inl
             out = []
             for s2, n2, v in results:
                 s2.env = dict(saved)
@@ -909,6 +928,16 @@ class Extractor:
                 if not isinstance(a, ConstV):
                     raise Unsupported("non-constant argument to %s" % name)
                 vals.append(a.value)
+            if name in self.cls.__dict__:
+                # omitted parameters take the callee's constant defaults: parse_directives() is parse_directives(False)
+                ctree = self.method_ast(name)
+                cparams = [a.arg for a in ctree.args.args][1:]
+                cdef = ctree.args.defaults
+                for i in range(len(vals), len(cparams)):
+                    d = cdef[i - (len(cparams) - len(cdef))] if i >= len(cparams) - len(cdef) else None
+                    if not isinstance(d, ast.Constant):
+                        raise Unsupported("call of %s leaves parameter %s without a value" % (name, cparams[i]))
+                    vals.append(d.value)
             ret = self.return_kind(name)
             st = st.copy()
             la1 = st.toks.get(st.la[0]) if st.la[0] else None
